@@ -82,8 +82,8 @@ theorem renderFullscreen_eq (win : Win) (h w : Nat) (arr : List FmtStr) (pos : N
           (if !win0.hideCursor then [TermOp.show] else [])) := by
   rfl
 
-theorem C02_render (win : Win) (t : Term) (arr : List FmtStr) (pos : Nat × Nat)
-    (hpos : pos.1 < t.h ∧ pos.2 < t.w) (hbg : t.g = {}) (hprint : ∀ l ∈ arr, Printable l) (hinv : Inv win t) :
+theorem C02_render (u : UEnv) (win : Win) (t : Term) (arr : List FmtStr) (pos : Nat × Nat)
+    (hpos : pos.1 < t.h ∧ pos.2 < t.w) (hbg : t.g = {}) (hprint : ∀ l ∈ arr, Glyphs u l) (hinv : Inv win t) :
     (∀ r c, r < t.h → c < t.w → (exec t (renderFullscreen win t.h t.w arr pos).2).grid r c = arrayCell arr r c) ∧
     (exec t (renderFullscreen win t.h t.w arr pos).2).r = pos.1 ∧
     (exec t (renderFullscreen win t.h t.w arr pos).2).c = pos.2 ∧
@@ -94,7 +94,7 @@ theorem C02_render (win : Win) (t : Term) (arr : List FmtStr) (pos : Nat × Nat)
     (exec t (renderFullscreen win t.h t.w arr pos).2).w = t.w ∧
     (exec t (renderFullscreen win t.h t.w arr pos).2).g = {} ∧
     Inv (renderFullscreen win t.h t.w arr pos).1 (exec t (renderFullscreen win t.h t.w arr pos).2) := by
-  have hesc : ∀ l ∈ arr, EscFree l := fun l hl => (hprint l hl).escFree
+  have hesc : ∀ l ∈ arr, EscFree l := fun l hl => (hprint l hl).1.escFree
   rw [renderFullscreen_eq]
   simp only []
   -- the cache the loops compare against
@@ -237,18 +237,18 @@ def C02.run : Win → Term → List C02.Step → Win × Term
 
 /-- the property's domain: rows ESC-free, cursor_pos on the screen, resizes go to a size different from the one last
     rendered at (the window cannot notice a resize back to the size it rendered at before its next render) -/
-def C02.Valid : Win → Term → List C02.Step → Prop
+def C02.Valid (u : UEnv) : Win → Term → List C02.Step → Prop
   | _, _, [] => True
   | win, t, .render arr pos :: rest =>
-    pos.1 < t.h ∧ pos.2 < t.w ∧ (∀ l ∈ arr, Printable l) ∧
-      C02.Valid (renderFullscreen win t.h t.w arr pos).1 (exec t (renderFullscreen win t.h t.w arr pos).2) rest
+    pos.1 < t.h ∧ pos.2 < t.w ∧ (∀ l ∈ arr, Glyphs u l) ∧
+      C02.Valid u (renderFullscreen win t.h t.w arr pos).1 (exec t (renderFullscreen win t.h t.w arr pos).2) rest
   | win, t, .resize h w grid r c :: rest =>
-    (win.lastH ≠ some h ∨ win.lastW ≠ some w) ∧ C02.Valid win (C02.resized t h w grid r c) rest
+    (win.lastH ≠ some h ∨ win.lastW ≠ some w) ∧ C02.Valid u win (C02.resized t h w grid r c) rest
 
-theorem C02_run_inv (steps more : List C02.Step) :
-    ∀ (win : Win) (t : Term), Inv win t → t.g = {} → C02.Valid win t (steps ++ more) →
+theorem C02_run_inv (u : UEnv) (steps more : List C02.Step) :
+    ∀ (win : Win) (t : Term), Inv win t → t.g = {} → C02.Valid u win t (steps ++ more) →
       Inv (C02.run win t steps).1 (C02.run win t steps).2 ∧ (C02.run win t steps).2.g = {} ∧
-      C02.Valid (C02.run win t steps).1 (C02.run win t steps).2 more := by
+      C02.Valid u (C02.run win t steps).1 (C02.run win t steps).2 more := by
   induction steps with
   | nil => intro win t hi hb hv; exact ⟨hi, hb, hv⟩
   | cons st rest ih =>
@@ -256,7 +256,7 @@ theorem C02_run_inv (steps more : List C02.Step) :
     cases st with
     | render arr pos =>
       obtain ⟨h1, h2, h3, h4⟩ := hv
-      have r := C02_render win t arr pos ⟨h1, h2⟩ hb h3 hi
+      have r := C02_render u win t arr pos ⟨h1, h2⟩ hb h3 hi
       exact ih _ _ r.2.2.2.2.2.2.2.2.2 r.2.2.2.2.2.2.2.2.1 h4
     | resize h w grid r c =>
       obtain ⟨h1, h2⟩ := hv
@@ -270,8 +270,8 @@ theorem C02_run_inv (steps more : List C02.Step) :
     screen equals the array (clipped to the terminal), the cursor is at cursor_pos, and nothing scrolled.
     (`steps` is the history before that render, starting from any window/terminal pair satisfying `Inv`, e.g. a
     freshly constructed window on an arbitrary screen: `C02_initial`.) -/
-theorem C02_history (win : Win) (t : Term) (steps : List C02.Step) (arr : List FmtStr) (pos : Nat × Nat)
-    (hinv : Inv win t) (hbg : t.g = {}) (hv : C02.Valid win t (steps ++ [.render arr pos])) :
+theorem C02_history (u : UEnv) (win : Win) (t : Term) (steps : List C02.Step) (arr : List FmtStr) (pos : Nat × Nat)
+    (hinv : Inv win t) (hbg : t.g = {}) (hv : C02.Valid u win t (steps ++ [.render arr pos])) :
     let win1 := (C02.run win t steps).1
     let t1 := (C02.run win t steps).2
     let t2 := exec t1 (renderFullscreen win1 t1.h t1.w arr pos).2
@@ -279,18 +279,18 @@ theorem C02_history (win : Win) (t : Term) (steps : List C02.Step) (arr : List F
     t2.r = pos.1 ∧ t2.c = pos.2 ∧ t2.pw = false ∧
     t2.cursorVisible = (if win1.hideCursor then t1.cursorVisible else true) ∧
     t2.scrollback = t1.scrollback ∧ t2.h = t1.h ∧ t2.w = t1.w := by
-  obtain ⟨hi, hb, hv'⟩ := C02_run_inv steps [.render arr pos] win t hinv hbg hv
+  obtain ⟨hi, hb, hv'⟩ := C02_run_inv u steps [.render arr pos] win t hinv hbg hv
   obtain ⟨h1, h2, h3, _⟩ := hv'
-  have r := C02_render _ _ arr pos ⟨h1, h2⟩ hb h3 hi
+  have r := C02_render u _ _ arr pos ⟨h1, h2⟩ hb h3 hi
   exact ⟨r.1, r.2.1, r.2.2.1, r.2.2.2.1, r.2.2.2.2.1, r.2.2.2.2.2.1, r.2.2.2.2.2.2.1, r.2.2.2.2.2.2.2.1⟩
 
 /-- non-vacuity: a 2x3 terminal full of junk; render a too-wide red row over a short row, resize, render again -/
-example : C02.Valid {} { h := 2, w := 3, grid := fun _ _ => ('#', { bg := some 1 }) }
+example : C02.Valid ⟨fun _ => 1, fun _ => false⟩ {} { h := 2, w := 3, grid := fun _ _ => ('#', { bg := some 1 }) }
     [.render [[⟨"abcd".toList, { fg := some 1 }⟩], [⟨"x".toList, {}⟩], [⟨"zzz".toList, {}⟩]] (1, 2),
      .resize 1 2 (fun _ _ => ('?', {})) 0 0,
      .render [[⟨"q".toList, {}⟩]] (0, 1)] := by
   refine ⟨by decide, by decide, ?_, ⟨Or.inl (by decide), by decide, by decide, ?_, trivial⟩⟩ <;>
-    (intro l hl; simp at hl; intro ch hch; revert ch; rcases hl with rfl | rfl | rfl <;> decide)
+    (intro l hl; simp at hl; refine ⟨?_, fun _ _ => rfl⟩; intro ch hch; revert ch; rcases hl with rfl | rfl | rfl <;> decide)
 
 /-! ### the capability strings -/
 
